@@ -75,6 +75,8 @@ def cases(tier, seed):
     # ... and WITHOUT the rational snapping of float constants: (P / k) * k - P is the zero polynomial
     for k in (3, 7, 49, 6):
         out.append(dict(kind='div-int-exact', k=k))
+    # corner operations reachable through the public constructors and operators (concrete, deterministic)
+    out.append(dict(kind='edge-ops'))
     # fork mode on real-valued coefficients
     m = 120 if tier == 'quick' else 800
     for i in range(m):
@@ -260,6 +262,56 @@ def run_case(desc, V):
                 if len(d) != len(coefs):
                     claims.append(Fail(f'{tag}/int:terms[{coefs}]', f'{coefs}/{desc["k"]}: result has monomials {sorted(d)}'))
         claims.append(Note('nontrivial', ''))
+        return claims
+    if kind == 'edge-ops':
+        import sympy
+        claims = [Note('nontrivial', '')]
+        x, y, z = Polynomial.fromname('x'), Polynomial.fromname('y'), Polynomial.fromname('z')
+        rx, ry = RationalPolynomial.fromname('x'), RationalPolynomial.fromname('y')
+
+        def same(tag, fn, want, fkey):
+            """fn() returns an object that denotes the sympy expression `want`."""
+            try:
+                r = fn()
+                got = r.tosympy() if hasattr(r, 'tosympy') else sympy.sympify(r)
+                ok = sympy.simplify(got - want) == 0
+                detail = f'{tag}: denotes {got}, expected {want}'
+            except Exception as e:  # noqa
+                ok, detail = False, f'{tag}: raises {type(e).__name__}: {e}'
+            if not ok:
+                claims.append(Fail(tag, detail, fkey=fkey))
+
+        def iszero(tag, fn, fkey):
+            try:
+                r = fn()
+                ok = (r == 0) and not bool(r)
+                detail = f'{tag}: the zero function is stored as {r!r}: == 0 is {r == 0}, bool is {bool(r)}'
+            except Exception as e:  # noqa
+                ok, detail = False, f'{tag}: raises {type(e).__name__}: {e}'
+            if not ok:
+                claims.append(Fail(tag, detail, fkey=fkey))
+        X, Y = sympy.Symbol('x'), sympy.Symbol('y')
+        # (a) exact zero tests, both directions
+        iszero('(P(0)+x)*y - x*y', lambda: (Polynomial(0) + x) * y - x * y, 'edge|zero-not-recognised')
+        iszero('(P(0)+x)*(y+z) - x*(y+z)', lambda: (Polynomial(0) + x) * (y + z) - x * (y + z), 'edge|zero-not-recognised')
+        iszero('P([[1,y],[1,x]]) - (x+y)', lambda: Polynomial([[1, 'y'], [1, 'x']]) - (x + y), 'edge|zero-not-recognised')
+        # (b) a number combined with a zero rational polynomial
+        same('(rx*ry - ry*rx) + 5', lambda: (rx * ry - ry * rx) + 5, sympy.Integer(5), 'edge|number-plus-zero-rational')
+        same('7 - (rx - rx)', lambda: 7 - (rx - rx), sympy.Integer(7), 'edge|number-plus-zero-rational')
+        same('((rx - rx) + 2) * rx', lambda: ((rx - rx) + 2) * rx, 2 * X, 'edge|number-plus-zero-rational')
+        # (c) copy constructor
+        same('RationalPolynomial(rx / ry)', lambda: RationalPolynomial(rx / ry), X / Y, 'edge|copy-constructor')
+        # (d) powers 0 and of either sign
+        same('x ** 0', lambda: x ** 0, sympy.Integer(1), 'edge|pow-zero')
+        same('rx ** 0', lambda: rx ** 0, sympy.Integer(1), 'edge|pow-zero')
+        same('(rx / ry) ** -2', lambda: (rx / ry) ** -2, Y ** 2 / X ** 2, 'edge|pow-negative')
+        same('x ** -1', lambda: x ** -1, 1 / X, 'edge|polynomial-negative-power')
+        same('1 / x', lambda: 1 / x, 1 / X, 'edge|number-over-polynomial')
+        # (e) the two classes in one expression
+        same('(rx / ry) * x', lambda: (rx / ry) * x, X ** 2 / Y, 'edge|mixed-classes')
+        same('x * (rx / ry)', lambda: x * (rx / ry), X ** 2 / Y, 'edge|mixed-classes')
+        same('x + rx', lambda: x + rx, 2 * X, 'edge|mixed-classes')
+        same('rx + x', lambda: rx + x, 2 * X, 'edge|mixed-classes-rat-first')
         return claims
     if kind == 'div-int-exact':
         k = desc['k']
